@@ -264,10 +264,8 @@ func leavesOf(v ssa.Value, d int, seen map[ssa.Value]bool, out map[string]bool) 
 	case *ssa.Extract:
 		leavesOf(x.Tuple, d+1, seen, out)
 	case *ssa.Call:
-		if d > 0 {
-			if o := Callee(x); o != nil {
-				out["via:"+o.Name()] = true
-			}
+		if o := Callee(x); o != nil {
+			out["via:"+o.Name()] = true
 		}
 		if x.Call.IsInvoke() {
 			leavesOf(x.Call.Value, d+1, seen, out)
